@@ -23,7 +23,11 @@ def run_cases(cases, tag, timeout=1200):
     g, m = C.group_lines(go_out), C.group_lines(ml_out)
     res = []
     for c in cases:
-        gl, ml = g.get(c["id"], []), m.get(c["id"], [])
+        gl_all, ml_all = g.get(c["id"], []), m.get(c["id"], [])
+        qg = [l for l in gl_all if " Q " in l]
+        qm = [l for l in ml_all if " Q " in l]
+        gl = [l for l in gl_all if " Q " not in l]
+        ml = [l for l in ml_all if " Q " not in l]
         diff = None
         if gl != ml:
             for k, (a, b) in enumerate(zip(gl, ml)):
@@ -33,7 +37,7 @@ def run_cases(cases, tag, timeout=1200):
             if diff is None:
                 diff = {"line": min(len(gl), len(ml)), "impl": "<%d lines>" % len(gl), "model": "<%d lines>" % len(ml),
                         "tail_impl": gl[-2:], "tail_model": ml[-2:]}
-        res.append({"case": c, "impl": gl, "model": ml, "diff": diff})
+        res.append({"case": c, "impl": gl, "model": ml, "diff": diff, "q_impl": qg, "q_model": qm})
     return res, (rc1, go_err, rc2, ml_err)
 
 
@@ -41,13 +45,17 @@ if __name__ == "__main__":
     import sys, json
     seed = int(sys.argv[1]) if len(sys.argv) > 1 else 1
     n = int(sys.argv[2]) if len(sys.argv) > 2 else 50
-    res, st = run_cases(make_cases(seed, n), "dev")
+    mode = sys.argv[3] if len(sys.argv) > 3 else "unchecked"
+    res, st = run_cases(make_cases(seed, n, mode=mode), "dev")
     print("status", st[0], st[1][-300:], st[2], st[3][-300:])
     bad = [r for r in res if r["diff"]]
     kinds = {}
     for r in res:
         for l in r["impl"]:
             f = l.split()
+            if len(f) >= 4 and f[1] == "move":
+                k = "executable " + f[3]
+                kinds[k] = kinds.get(k, 0) + 1
             if len(f) >= 3 and f[1] == "result" or (len(f) >= 2 and f[0] == "build"):
                 k = " ".join(f[-2:]) if f[0] != "build" else "build " + f[-1]
                 kinds[k] = kinds.get(k, 0) + 1
